@@ -474,7 +474,9 @@ func init() {
 		for _, kind := range []string{"caldav", "carddav"} {
 			for _, pf := range prefixes {
 				l := c12LayoutFor(pf)
-				for _, t := range []string{l.P + "/v/", l.P + "/v", l.P + "/v/c/", l.P + "/u/d/", l.P + "/u/d", l.P + "/u", l.P + "/u/c"} {
+				for _, t := range []string{l.P + "/v/", l.P + "/v", l.P + "/v/c/", l.P + "/u/d/", l.P + "/u/d", l.P + "/u", l.P + "/u/c",
+					// foreign principals / home sets whose names extend or are extended by the current user's
+					l.P + "/u2/", l.P + "/u-admin/", l.P + "/u.old", l.P + "/u/c2/", l.P + "/u/c.bak/", l.P + "/u2/c/"} {
 					for _, d := range []string{"0", "1", "infinity"} {
 						exs = append(exs, ex{kind, pf, t, d})
 					}
